@@ -99,7 +99,10 @@ class Interp:
     `override`: {(block, stmt index): value} replaces the value assigned by that substitution
     (C09 perturbation)."""
 
-    def __init__(self, ssa, prime, inputs, max_steps=2000, override=None):
+    def __init__(self, ssa, prime, inputs, max_steps=2000, override=None, free_signals=False):
+        # free_signals: every signal and component port is an independent indeterminate (C07): a read asks `inputs`, whatever was assigned
+        self.free_signals = free_signals
+        self.node_seq = {}         # (start, end, tag) -> values in evaluation order
         self.ssa = ssa
         self.p = prime
         self.inputs = inputs
@@ -119,9 +122,13 @@ class Interp:
     # values of scalars are ints; arrays are dicts index-tuple -> int (default 0)
     def read_var(self, v):
         k = vkey(v)
+        ty = self.types.get((v[1], v[2]))
+        if self.free_signals and ty == "signal":
+            return self.inputs(("signal", v[1], v[2], ())) % self.p
+        if self.free_signals and ty in ("component", "anoncomponent"):
+            return ("component", v[1], v[2])
         if k in self.store:
             return self.store[k]
-        ty = self.types.get((v[1], v[2]))
         if ty == "signal":
             if self.sigtype.get((v[1], v[2])) == "input":
                 self.store[k] = self.inputs(("signal", v[1])) % self.p
@@ -138,6 +145,7 @@ class Interp:
     def note(self, e, val):
         m = e[1]
         self.node_values.setdefault((m[1], m[2], e[0]), set()).add(val)
+        self.node_seq.setdefault((m[1], m[2], e[0]), []).append(val)
         return val
 
     def eval(self, e):
@@ -164,8 +172,12 @@ class Interp:
             for a in e[3]:
                 if a[0] == "idx":
                     idx.append(self.eval(a[1]))
+                elif self.free_signals:
+                    idx.append(str(a[1]))
                 else:
                     raise Abort("component port read")
+            if self.free_signals and self.types.get((e[2][1], e[2][2])) in ("signal", "component", "anoncomponent"):
+                return self.note(e, self.inputs(("signal", e[2][1], e[2][2], tuple(idx))) % self.p)
             base = self.read_var(e[2])
             if isinstance(base, dict):
                 return self.note(e, base.get(tuple(idx), 0))
@@ -305,15 +317,15 @@ class Interp:
         done = getattr(self, "sig_done", None)
         if done is None:
             done = self.sig_done = set()
-        if (var[1], var[2], idx) in done:
+        if (var[1], var[2], idx) in done and not self.free_signals:
             raise Abort("invalid: signal assigned twice")
         done.add((var[1], var[2], idx))
         st = self.sigtype.get((var[1], var[2]))
         self.trace.append(("signal", st, var[1], idx, val, op))
 
 
-def run(ssa, prime, inputs, max_steps=2000, override=None):
-    it = Interp(ssa, prime, inputs, max_steps, override)
+def run(ssa, prime, inputs, max_steps=2000, override=None, free_signals=False):
+    it = Interp(ssa, prime, inputs, max_steps, override, free_signals)
     it.when = {}
     try:
         it.run()
